@@ -22,6 +22,8 @@ names = args or sorted(n for n in os.listdir(os.path.join(HERE, "seeded")) if os
 
 def one(name):
     d = os.path.join(HERE, "seeded", name)
+    if json.load(open(os.path.join(d, "meta.json"))).get("obsolete"):
+        return name, {}
     wt = "/tmp/robust_wt_%s" % name
     subprocess.run(["git", "-C", "/repo", "worktree", "remove", "--force", wt], capture_output=True)
     subprocess.run(["git", "-C", "/repo", "worktree", "add", "-q", "--detach", wt, "HEAD"], check=True)
